@@ -170,8 +170,13 @@ def from_json(d):
 # ----------------------------------------------------------------------------- tree likelihood
 
 
-def like_spec(subst, site, tree, n=3, cat=4, tip="partials"):
+def like_spec(subst, site, tree, n=3, cat=4, tip="partials", long_branches=False):
     params = list(tree_params("unrooted" if tree == "unrooted" else "ratio", n))
+    if long_branches:
+        # hundreds of taxa and long branches: the plain recursion underflows, so the FIRST evaluation of a model
+        # goes through the evaluation that detects it, and later ones through the rescaled recursion
+        params = [("bl", ((2 * n - 3,), g_pos(0.6, 2.5)))]
+    seqs = SEQS[n] if n in SEQS else ["A" + "ACGT"[(j * j + j // 3) % 4] + ("C" if j % 16 == 0 else "A") for j in range(n)]
     if subst == "HKY":
         params += [("kappa", ((1,), g_pos(0.5, 5.0))), ("freqs", ((4,), g_simplex()))]
     elif subst == "GTR":
@@ -206,7 +211,7 @@ def like_spec(subst, site, tree, n=3, cat=4, tip="partials"):
         if "mu" in site:
             mj["mu"] = P("mu", v["mu"])
         aln = {"id": "aln", "type": "Alignment", "datatype": "nucleotide", "taxa": "taxa",
-               "sequences": [{"taxon": f"t{j}", "sequence": SEQS[n][j]} for j in range(n)]}
+               "sequences": [{"taxon": f"t{j}", "sequence": seqs[j]} for j in range(n)]}
         d = {"id": "like", "type": "TreeLikelihoodModel", "tree_model": tj, "site_model": mj,
              "substitution_model": sj, "site_pattern": {"id": "sp", "type": "SitePattern", "alignment": aln}}
         if tree != "unrooted":
@@ -216,7 +221,10 @@ def like_spec(subst, site, tree, n=3, cat=4, tip="partials"):
             d["use_tip_states"] = True
         return d
     key = f"TreeLikelihoodModel/{subst}/{site}" + (f"{cat}" if "weibull" in site else "") + f"/{tree}/n{n}" + \
-          ("/tipstates" if tip == "states" else "")
+          ("/tipstates" if tip == "states" else "") + ("/underflow" if long_branches else "")
+    if long_branches:
+        # observed twice: the evaluation that detects the underflow, and the next one (rescaled recursion)
+        return Spec(key, params, js, "treelikelihood", observe=lambda m: [m(), m()])
     return Spec(key, params, js, "treelikelihood")
 
 
@@ -549,6 +557,8 @@ def catalogue(tier):
     S.append(like_spec("HKY", "weibull", "unrooted", 3, 3))
     S.append(like_spec("GTR", "weibull", "strict", 3, 2, "states"))
     S.append(like_spec("JC69", "weibull+inv", "unrooted", 3, 4, "states"))
+    S.append(like_spec("JC69", "constant", "unrooted", 600, 1, long_branches=True))
+    S.append(like_spec("HKY", "invariant", "unrooted", 600, 1, "states", long_branches=True))
     if thorough:
         S.append(like_spec("HKY", "weibull", "strict", 4, 5))
         S.append(like_spec("GTR", "weibull+inv", "unrooted", 4, 2))
